@@ -74,13 +74,27 @@ def synthetic_setup(rng, ncat=6, multi_label=True):
                 k = rng.choice([1, 1, 2, 3])
                 outs = [rng.choice(cats) for _ in range(k)]
                 table[(x, y)] = [CombinatorResult(cat=c, op_string=f'r{i}{str(x)}{str(y)}', op_symbol=f'<{i}>', head_is_left=((rng.random() < 0.5) if mixed else hl)) for i, c in enumerate(outs)]
+    if rng.random() < 0.12:
+        # one pair with several hundred differently labelled results (a rule index does not fit a byte); the result categories cycle
+        # with a period coprime to 256
+        x, y = rng.choice(cats), rng.choice(cats)
+        per = [c for c in cats][:3] if len(cats) >= 3 else cats
+        table[(x, y)] = [CombinatorResult(cat=per[i % len(per)], op_string=f'w{i}', op_symbol=f'<w{i}>', head_is_left=((i % 2 == 0) if mixed else hl))
+                         for i in range(rng.randint(257, 300))]
+    if rng.random() < 0.15 and table:
+        # a rule name / symbol is any string - the empty one included
+        k_ = rng.choice(list(table))
+        table[k_] = [CombinatorResult(cat=r.cat, op_string='' if rng.random() < 0.6 else r.op_string, op_symbol='' if rng.random() < 0.4 else r.op_symbol,
+                                      head_is_left=r.head_is_left) for r in table[k_]]
+    empty_unary = rng.random() < 0.2
     for i, x in enumerate(cats[:-1]):
         if rng.random() < 0.4:
             outs = rng.sample(cats[i + 1:], min(len(cats) - i - 1, rng.choice([1, 2, 2])))
             if rng.random() < 0.35:
                 # a unary result that rewrites the category to itself, listed among (often before) the others
                 outs.insert(rng.choice([0, 0, len(outs)]), x)
-            utable[x] = [CombinatorResult(cat=c, op_string=f'u{j}{str(x)}', op_symbol=f'<u{j}>', head_is_left=True) for j, c in enumerate(outs)]
+            utable[x] = [CombinatorResult(cat=c, op_string=('' if empty_unary and j % 2 == 0 else f'u{j}{str(x)}'), op_symbol=('' if empty_unary and j % 2 == 1 else f'<u{j}>'),
+                                          head_is_left=True) for j, c in enumerate(outs)]
     roots = [c for c in cats if rng.random() < 0.5] or [cats[0]]
     def unary(x):
         return list(utable.get(x, []))
